@@ -13,6 +13,8 @@ def run(chk, ctx):
     # path reduces the entry to the signal's width, so at the virtual signals' width 64 the mask must be all ones
     from . import c07
     c07.mask_rules(chk, P, which_list=("expected",), only_widths=(64,))
+    from . import lexrules
+    lexrules.spelling_rule(chk, P, ("Declare", "Equal", "Semi"))
     chk.explanation = ("C14 decided structurally: ORG/const (with_signals appends one Signal{bits: 64, typ: Virtual{expr}} per declaration, in declaration order), ORD (handle_io: read-call, set_outputs(answer), then the extraction, the only evaluator of virtual expressions), "
                        "PAIR (swap_vars before and after the evaluation on every evaluating path, nothing that could write the swapped-in map in between; alt_vars is only ever swapped, so it is empty), "
                        "PAIR on the parser's declare arm (variable set emptied while the expression is parsed, so every identifier is an output read), TAB (an evaluation error maps to an error item, never unwrapped or defaulted).")
